@@ -93,7 +93,7 @@ def recognise_las(vers20: bool, ncurves: int, wrap: bool, lead: int, comments: b
         import C09_las as H9
         from spec import las_ref
         content = H9._content(vers20, ncurves, 2, True, c0, 4, 7)
-        lay = dict(wrap=wrap, lead=lead, sep=2, comments=comments, blanks=blanks, per_line=2, colon_pad=1)
+        lay = dict(wrap=wrap, lead=lead, sep=2, comments=comments, blanks=blanks, per_line=2, colon_pad=1, comment_indent=' ' * lead)
         text = las_ref.render(content, lay)
         mark.hit()
         t, ok = _typed(text.encode('ascii'))
